@@ -527,4 +527,67 @@ def G.distinct (g : G) (eq : V → V → Bool) : G :=
     (fun | .val (.tup [_, .int n]) => if n == 1 then .t else .f | .viol => .viol | _ => .err))
     (fun | .val (.tup [v, _]) => .val v | .viol => .viol | _ => .err)
 
+
+/-! ### library functions of `include.rs` over the natives (compositions: no new iterator states) -/
+
+/-- `first(g, p)` (`include.rs:206`): `g.nth(0, p)` -/
+def first (L : Option Nat) (fuel : Nat) (g : G) (p : P) : Res (Option V) := nth L fuel g 0 p
+
+/-- `any(g, p)` (`include.rs:161`): `g.nth(0, p).has_value()` -/
+def any (L : Option Nat) (fuel : Nat) (g : G) (p : P) : Res Bool :=
+  match nth L fuel g 0 p with
+  | .ok o => .ok o.isSome
+  | .err => .err
+  | .viol => .viol
+  | .outOfFuel => .outOfFuel
+
+/-- the negated predicate `(t) -> {!f(t)}` -/
+def notP (p : P) : P := fun x =>
+  match p x with
+  | .t => .f
+  | .f => .t
+  | r => r
+
+/-- `all(g, p)` (`include.rs:157`): `!g.nth(0, (t) -> {!p(t)}).has_value()` -/
+def all (L : Option Nat) (fuel : Nat) (g : G) (p : P) : Res Bool :=
+  match nth L fuel g 0 (notP p) with
+  | .ok o => .ok (!o.isSome)
+  | .err => .err
+  | .viol => .viol
+  | .outOfFuel => .outOfFuel
+
+/-- `count(g, p)` (`include.rs:190`): `g.filter(p).len()` -/
+def countIf (L : Option Nat) (fuel : Nat) (g : G) (p : P) : Res Nat := len L fuel (.filter g p)
+
+/-- `unzip` (:1322) gives one `Map(g, t -> t[i])` per component; `keys` / `values` of a mapping (`include.rs:264,284`)
+are components 0 and 1 of its entry generator -/
+def G.component (g : G) (i : Nat) : G :=
+  .map g (fun | .val (.tup vs) => (match vs[i]? with | some v => .val v | none => .err) | .viol => .viol | _ => .err)
+
+/-- `enumerate(g, start, step)` (`include.rs:202`): `count(start, step).zip(g)`; `count(start, step)` is the counter
+under the sequence map `x -> x * step + start` (`include.rs:103`) -/
+def G.enumerate (g : G) (start step : Int) : G :=
+  .zip [.fromCount (some (fun | .val (.int i) => .val (.int (i * step + start)) | .viol => .viol | _ => .err)), g]
+
+/-- `repeat(g, n)` (`include.rs:1339`): `[g].to_generator().repeat().take(n).flatten()` — the fold of `add` over
+`n` copies of the generator value -/
+def G.repeatN (g : G) (n : Nat) : G := G.flattenAll (List.replicate n g)
+
+/-- `aggregate(g, f)` without an initial state (`include.rs:151`):
+`g.aggregate(none(), (prev, next) -> if(prev.has_value(), some(f(prev.value(), next)), some(next))).skip(1).map(value)`;
+`none()` is `tup []`, `some(v)` is `tup [v]` -/
+def G.aggregate1 (g : G) (f : F2) : G :=
+  .map (G.mkSlice (.aggregate g (.val (.tup []))
+      (fun prev next =>
+        match prev, next with
+        | .viol, _ => .viol
+        | _, .viol => .viol
+        | .val (.tup []), .val v => .val (.tup [v])
+        | .val (.tup [a]), .val v => (match f (.val a) (.val v) with | .val r => .val (.tup [r]) | r => r)
+        | _, _ => .err)) 1 none)
+    (fun | .val (.tup [v]) => .val v | .viol => .viol | _ => .err)
+
+/-- `reduce(g, f)` without an initial state (`include.rs:214`): `g.aggregate(f).last()` -/
+def reduce1 (L : Option Nat) (fuel : Nat) (g : G) (f : F2) : Res V := last L fuel (g.aggregate1 f)
+
 end XrayModel.Gen
